@@ -226,12 +226,12 @@ Definition verbose (penv : list (string * string)) : bool := parse_bool_true (en
 Section History.
 (* The operating system and the child are EXTERNAL: which program the command word names (exec.LookPath through
    PATH, the file system at that moment), whether it can be started, what it prints and how it exits are
-   functions of the process environment AT THE TIME OF THE CALL and of the argv the call hands over (argv[0] is
-   the expanded command word) - of nothing else: not of earlier calls, not of the closure's age.
+   functions of the process environment AT THE TIME OF THE CALL, of the env map the call hands to Exec (the child is
+   started with both; os/exec refuses some maps) and of the argv the call hands over (argv[0] is the expanded command word) - of nothing else: not of earlier calls, not of the closure's age.
    (A child that cannot be started: empty stdout, status 1.  File-system changes are made visible to these
    functions by the harness through an epoch variable in the environment.) *)
-Variable child_out : list (string * string) -> list string -> string.
-Variable child_exit : list (string * string) -> list string -> nat.   (* not 0: the call fails *)
+Variable child_out : list (string * string) -> list (string * string) -> list string -> string.   (* process environment, env overlay of the call, argv *)
+Variable child_exit : list (string * string) -> list (string * string) -> list string -> nat.   (* not 0: the call fails *)
 Variable fixed : bool.
 
 (* where the child's stdout goes.  RunCmd closure -> Run -> RunWith: os.Stdout if mg.Verbose() AT THE CALL, else
@@ -239,15 +239,16 @@ Variable fixed : bool.
    also when the child fails (cmd.go:88-92 returns the text together with the error) *)
 Definition finish_closure (k : kind) (penv : list (string * string)) (argv : list string) : obs :=
   match k with
-  | KRun => OCall argv None (if verbose penv then child_out penv argv else "") (child_exit penv argv)
-  | KOut => OCall argv (Some (trim_nl (child_out penv argv))) "" (child_exit penv argv)
+  | KRun => OCall argv None (if verbose penv then child_out penv [] argv else "") (child_exit penv [] argv)
+  | KOut => OCall argv (Some (trim_nl (child_out penv [] argv))) "" (child_exit penv [] argv)
   end.
-Definition finish_direct (f : fnsel) (penv : list (string * string)) (argv : list string) : obs :=
+Definition finish_direct (f : fnsel) (emap penv : list (string * string)) (argv : list string) : obs :=
+  let m := if uses_map f then emap else [] in
   match f with
-  | FRun | FRunWith => OCall argv None (if verbose penv then child_out penv argv else "") (child_exit penv argv)
-  | FRunV | FRunWithV => OCall argv None (child_out penv argv) (child_exit penv argv)
-  | FOutput | FOutputWith => OCall argv (Some (trim_nl (child_out penv argv))) "" (child_exit penv argv)
-  | FExec => OCall argv (Some (child_out penv argv)) "" (child_exit penv argv)   (* the caller's own writer receives the raw bytes *)
+  | FRun | FRunWith => OCall argv None (if verbose penv then child_out penv m argv else "") (child_exit penv m argv)
+  | FRunV | FRunWithV => OCall argv None (child_out penv m argv) (child_exit penv m argv)
+  | FOutput | FOutputWith => OCall argv (Some (trim_nl (child_out penv m argv))) "" (child_exit penv m argv)
+  | FExec => OCall argv (Some (child_out penv m argv)) "" (child_exit penv m argv)   (* the caller's own writer receives the raw bytes *)
   end.
 
 (* the code a call operation runs, and what the caller and os.Stdout get, given the child's argv *)
@@ -260,7 +261,7 @@ Definition call_prog (cls : list closure) (penv : list (string * string)) (o : o
       | Some cl => Some (closure_call fixed cl penv extra, finish_closure (cl_kind cl) penv)
       | None => None
       end
-  | CallDirect f emap cmd args => Some (direct_call fixed f emap penv cmd args, finish_direct f penv)
+  | CallDirect f emap cmd args => Some (direct_call fixed f emap penv cmd args, finish_direct f emap penv)
   end.
 
 (* state: the process environment, the closures made so far, the heap *)
